@@ -1,5 +1,5 @@
 """C11 — Literal and the built-in value types match exactly their documented values."""
-import json, collections
+import json, collections, typing
 from .. import model, progs
 from ..world import World, world_from, dec_val, enc_val
 from . import dep_common as D
@@ -94,6 +94,10 @@ def nested_combo_program(rng, w, corpus_enc):
     fids = [10]
     utab = {}
     ds = [D.gen_dep_type(rng, w, fids, utab, corpus_enc, depth=0, allow_combo=False) for _ in range(3)]
+    if rng.random() < 0.4:
+        # no value-dependent type among the DIRECT members: (d1 & d2) | cls, (d1 | d2) & cls -- whether the method needs
+        # run-time checks at all must be decided by looking inside the inner combination
+        ds[2] = [0, rng.choice([D.INT, D.STR, D.TUPLE])]
     if rng.random() < 0.5:
         t = [2, [3, ds[0], ds[1]], ds[2]]
     else:
@@ -155,9 +159,58 @@ def check_program(ctx, prog, stats, kind):
             return
 
 
+def bound_family_program(rng, w, corpus_enc):
+    """the same element check under different bounds in one function (list[T] next to Sequence[T], dict-bound and
+    Mapping-bound key checks): the types differ by their bound only"""
+    t = [0, rng.choice([D.INT, D.STR, 0])]
+    defs = [{"id": 0, "pos": [[10, 4, [0, D.LIST], t]], "npos_req": 1, "kw": [], "prio": 0},
+            {"id": 1, "pos": [[10, 4, [0, 8], t]], "npos_req": 1, "kw": [], "prio": 0}]
+    if rng.random() < 0.5:
+        k = [1, enc_val(rng.choice(["k", "j"]))]
+        defs += [{"id": 2, "pos": [[9, 2, [0, D.DICT], k]], "npos_req": 1, "kw": [], "prio": 0},
+                 {"id": 3, "pos": [[9, 2, [0, 9], k]], "npos_req": 1, "kw": [], "prio": 0}]
+    rng.shuffle(defs)
+    defs.append({"id": 9, "pos": [[0, 0]], "npos_req": 1, "kw": [], "prio": 0})
+    return {"spec": w.spec, "defs": defs, "utab": {}, "calls": [{"vals": [e]} for e in corpus_enc]}
+
+
+def check_sets(ctx, stats):
+    """set / frozenset element checks (shallow: the first element) -- values the model has no constructor for, so this is
+    the property oracle alone: isinstance and the method a real function runs against the documented reading"""
+    import ovld as _ov
+    from ovld import ovld as deco
+    for T, good, bad in ((int, 1, "a"), (str, "a", 1), (typing.Literal["a", "b"], "a", "c")):
+        f = _ov.Ovld(name="f")
+
+        def m_set(x: set[T]):
+            return "set"
+
+        def m_fro(x: frozenset[T]):
+            return "frozenset"
+
+        def m_obj(x: object):
+            return "other"
+        for m in (m_set, m_fro, m_obj):
+            f.register(m)
+        for mk, tag in ((set, "set"), (frozenset, "frozenset")):
+            for elems, exp in (([], tag), ([good], tag), ([bad], "other"), ([None], "other")):
+                v = mk(elems)
+                try:
+                    got = f(v)
+                except TypeError as e:
+                    got = "TypeError:" + str(e)[:40]
+                stats["evaluations"] += 1
+                stats["set_checks"] += 1
+                if got != exp:
+                    ctx.violation(f"{mk.__name__}[{T}] on {v!r}: the function gives {got!r}, the documented shallow element check selects {exp!r}",
+                                  {"sets": True, "T": repr(T), "value": repr(v)})
+                    return
+
+
 def run(ctx):
     stats = collections.Counter()
     stats["distinct"] = set()
+    check_sets(ctx, stats)
     samples = []
     n = 25 if ctx.quick() else 1200
     w = World([{"kind": "plain", "bases": [], "meths": []}])
@@ -168,6 +221,7 @@ def run(ctx):
         check_program(ctx, prog, stats, "single_type_calls")
         for _ in range(3):
             check_program(ctx, nested_combo_program(ctx.rng, w, corpus_enc), stats, "nested_combination_calls")
+        check_program(ctx, bound_family_program(ctx.rng, w, corpus_enc), stats, "bound_family_calls")
         for mode in ("disjoint", "overlap", "mixed", "boolint"):
             fam = literal_family(ctx.rng, World([]), mode)
             if len(fam["defs"]) >= 2:
@@ -180,7 +234,7 @@ def run(ctx):
             "rule": "per round: 14 random types of the closure (depth <= 2) x 20+ corpus values for isinstance; one random type with an object fallback dispatched on every corpus value; Literal families of 2-6 methods (disjoint / overlapping / mixed value types / values equal across bool and int, shuffled value order, with or without fallback) dispatched on every pool value and four foreign values; a dispatch case is non-trivial (all involve a value type), distinct by (methods, tables, call)",
             "samples": samples, "isinstance_checks": stats["isinstance_checks"], "single_type_calls": stats["single_type_calls"], "nested_combination_calls": stats["nested_combination_calls"],
             "literal_family_calls": {m: stats["literal_family_calls_" + m] for m in ("disjoint", "overlap", "mixed", "boolint")},
-            "calls_repeated_as_methods_of_a_class": stats["method_mode_calls"], "traces_validated_against_impl": stats["evaluations"]}
+            "calls_repeated_as_methods_of_a_class": stats["method_mode_calls"], "bound_family_calls": stats["bound_family_calls"], "set_element_checks": stats["set_checks"], "traces_validated_against_impl": stats["evaluations"]}
 
 
 def replay(ctx, payload):
